@@ -239,6 +239,12 @@ func c06Netns(c *Ctx) {
 			c.Res.Inconcl("bind collision on a 'fixed' port: " + out.Err)
 			continue
 		}
+		if len(recvs) == 0 && wantProto == "tcp" && strings.Contains(out.Err, "i/o timeout") && strings.Contains(out.Err, "->"+wantEP.Addr) {
+			// the connection to the right endpoint over the right transport was not established within the timeout (a stalled host):
+			// nothing left, and nothing can be said about routing
+			c.Res.Inconcl("TCP connection to the expected endpoint not established within the timeout (host stalled?): " + out.Err)
+			continue
+		}
 		if len(recvs) != 1 {
 			c.Res.Violate(key+":count", fmt.Sprintf("%s (controller %s, protocol %q, bind %s, broadcast %q): %d requests arrived on the segment, expected exactly one at %s %s: %v (call: %q)", op.Name, dv.state, dv.proto, cfg.Bind, bc, len(recvs), wantProto, wantEP.Addr, desc, out.Err), wv, caseNo)
 			continue
